@@ -35,6 +35,7 @@ DRIVER = "drv_c13"
 RULE = ("scripted introductions: NAT type of requester x of introduced peer (4x4) x placement {public, different NATs, same "
         "NAT, requester public, introduced public} x message style {old, new} x 1..5 candidates at the introducer (extras "
         "on random boxes/types, arrival order random, the designated candidate forced through the patched random.choice) x "
+        "history {introduced peer walked to the introducer, introducer learned it from its response via a fourth node} x "
         "NAT port policy {preserving, remapped} x LAN numbering drawn from all three RFC 1918 ranges incl. their edges and "
         "colliding /24s x listening ports {all 8090, distinct} x optional noise walks among candidates; plus random "
         "histories: 3-6 hosts, 6-25 random walk/ask ops. distinct = distinct (configuration, op list); non-trivial = at "
@@ -48,7 +49,7 @@ TRUSTED_BASE = [
 ]
 ASSUMPTIONS = [
     "cone NATs only: endpoint-independent mapping (symmetric NAT excluded as in the property); boxes do not hairpin",
-    "the introducer is directly reachable (public, unfiltered) and the introduced peer has walked to the introducer before (so the introducer knows its LAN address) — the other history is explored and reported separately",
+    "the introducer is directly reachable (public, unfiltered); it knows the introduced peer either from that peer's request (the peer walked to it) or from its response (the introducer was introduced to it by a fourth node and walked to it) — both histories are checked",
     "the requester's next contact attempt = a walk to every address it was handed, after the puncture has left the introduced peer's NAT",
     "IPv4, endpoint without an `interfaces` attribute, max_peers not reached, empty address blacklist",
 ]
